@@ -16,6 +16,7 @@ From RecordUpdate Require Import RecordSet.
 Import RecordSetNotations.
 From Aldrin Require Import gen.BrokerConsts Broker.Model Broker.Run Broker.OutKinds Broker.EventProofs
   Broker.CallProofs Broker.CallInvProofs Props.C02_lemmas.
+From Aldrin Require Import Broker.CallMoreProofs.
 Local Open Scope N_scope.
 
 (* (a) the service does not exist: InvalidService with the caller's serial, nothing else happens *)
@@ -325,3 +326,114 @@ Example C02_owner_disconnect_run :
   outs_after (h_called2 ++ [inp (ConnectionShutdown 1) 0 None]) !! 7%nat =
   Some [(3, CallFunctionReply 9 CRInvalidService, None); (2, CallFunctionReply 9 CRInvalidService, None)].
 Proof. exact owner_disconnect_run. Qed.
+
+(* ================================================================ additions: what DESIGN.md listed as
+   "not proved" for C02 (Broker/CallMoreProofs.v).
+   [is_rep c serial o]: the output o is a CallFunctionReply with that serial to connection c. *)
+
+(* ---- (5) the callee's receiver is gone ([cs_alive ccs = false]: the connection task was dropped and
+   the broker has not noticed yet).  A call request is stored exactly as for a forwarded call, the
+   send fails, the callee is queued for removal and the handler returns Ok (broker.rs,
+   call_function_impl: `if res.is_err() { state.push_remove_conn(callee_id, false) }`): the step is
+   the callee's disconnect, run from the state in which the call is stored *)
+Theorem C02_call_dead_callee : forall s c cs x serial sc fn fver v f bs k sv callee ccs b nxt f' bs',
+  conns s !! c = Some cs -> is_call cs x serial sc fn fver v ->
+  svc_by_cookie s sc = Some (k, sv) -> owner_of_svc s k = Some callee ->
+  conns s !! callee = Some ccs -> cs_alive ccs = false ->
+  pick_serial s bs = Some (b, nxt) -> cs_calls cs !! serial = None ->
+  step s (Message c x) f bs =
+  step (call_state s c cs serial k sv b nxt callee) (ConnectionShutdown callee) f' bs'.
+Proof. exact call_dead_callee. Qed.
+Print Assumptions C02_call_dead_callee.
+
+(* ... so, in a reachable state: the callee is removed, the called service is gone, and the caller,
+   if it still has its receiver, is answered in this very step, exactly once, InvalidService,
+   broker-made; its serial is free again *)
+Theorem C02_call_dead_callee_answered : forall s i c cs x serial sc fn fver v k sv callee ccs s' o,
+  reachable s -> legal s i -> i_ev i = Message c x ->
+  conns s !! c = Some cs -> is_call cs x serial sc fn fver v ->
+  svc_by_cookie s sc = Some (k, sv) -> owner_of_svc s k = Some callee ->
+  conns s !! callee = Some ccs -> cs_alive ccs = false -> cs_calls cs !! serial = None ->
+  step s (Message c x) (i_fresh i) (i_bserial i) = Done (s', o) ->
+  conns s' !! callee = None /\ svcs s' !! k = None /\
+  (alive s' c = true ->
+     List.filter (is_rep c serial) o = [(c, CallFunctionReply serial CRInvalidService, None)] /\
+     pend c serial s' = 0%nat).
+Proof. exact call_dead_callee_answered. Qed.
+Print Assumptions C02_call_dead_callee_answered.
+
+(* an abort whose callee (version >= 16, so C02_abort would tell it) has lost its receiver: the
+   caller is answered Aborted — first output of the step, the only reply with that serial —, its
+   serial is free again, and the callee is removed in the same step *)
+Theorem C02_abort_dead_callee : forall s c cs serial b callee cl ccs f bs s' o,
+  conns s !! c = Some cs -> cs_alive cs = true -> 16 <= cs_ver cs ->
+  cs_calls cs !! serial = Some (b, callee) ->
+  calls s !! b = Some cl -> c_caller cl = c -> c_serial cl = serial -> c_aborted cl = false ->
+  conns s !! callee = Some ccs -> 16 <= cs_ver ccs -> cs_alive ccs = false ->
+  step s (Message c (AbortFunctionCall serial)) f bs = Done (s', o) ->
+  head o = Some (c, CallFunctionReply serial CRAborted, None) /\
+  nrep c serial o = 1%nat /\ pend c serial s' = 0%nat /\ conns s' !! callee = None.
+Proof. exact abort_dead_callee. Qed.
+Print Assumptions C02_abort_dead_callee.
+
+(* ---- (6) InvalidService or Aborted?  Aborted is output to (c, serial) only in the step that
+   handles c's own AbortFunctionCall serial (steps handling a CallFunctionReply message forward the
+   owner's result, which may be anything, and are described by C02_reply_routed) *)
+Theorem C02_aborted_only_by_own_abort : forall s i s' o c serial from,
+  reachable s -> legal s i -> step s (i_ev i) (i_fresh i) (i_bserial i) = Done (s', o) ->
+  (match i_ev i with Message _ (CallFunctionReply _ _) => False | _ => True end) ->
+  (c, CallFunctionReply serial CRAborted, from) ∈ o ->
+  i_ev i = Message c (AbortFunctionCall serial).
+Proof. exact aborted_only_by_own_abort. Qed.
+Print Assumptions C02_aborted_only_by_own_abort.
+
+(* hence the reply of C02_destroyed_exactly_once (service, its object or its owner gone) is
+   InvalidService, broker-made, in every step other than the caller's own abort *)
+Theorem C02_destroyed_invalid_service : forall s i s' o c serial cs b callee cl,
+  reachable s -> legal s i -> step s (i_ev i) (i_fresh i) (i_bserial i) = Done (s', o) ->
+  ~ is_own_call (i_ev i) c serial ->
+  (match i_ev i with Message _ (CallFunctionReply _ _) => False | _ => True end) ->
+  i_ev i <> Message c (AbortFunctionCall serial) ->
+  conns s !! c = Some cs -> cs_calls cs !! serial = Some (b, callee) -> calls s !! b = Some cl ->
+  alive s' c = true -> svcs s' !! c_svc cl = None ->
+  List.filter (is_rep c serial) o = [(c, CallFunctionReply serial CRInvalidService, None)].
+Proof. exact destroyed_invalid_service. Qed.
+Print Assumptions C02_destroyed_invalid_service.
+
+(* concrete runs (connection 1 owns the service, 2 and 3 are callers; DropTask 1 = the owner's
+   receiver is dropped) *)
+Example C02_call_dead_callee_sat :
+  let s := state_after (h_base ++ [inp (DropTask 1) 0 None]) in
+  conns s !! 2 = Some (get_conn s 2) /\ is_call (get_conn s 2) (CallFunction 9 1001 3 77) 9 1001 3 None 77 /\
+  svc_by_cookie s 1001 = Some ((100, 200), get_svc s (100, 200)) /\ owner_of_svc s (100, 200) = Some 1 /\
+  conns s !! 1 = Some (get_conn s 1) /\ cs_alive (get_conn s 1) = false /\
+  pick_serial s (Some 0) = Some (0, 0) /\ cs_calls (get_conn s 2) !! 9 = None.
+Proof. exact call_dead_callee_sat. Qed.
+
+Example C02_dead_callee_call_run :
+  let h := h_base ++ [inp (DropTask 1) 0 None; inp (Message 2 (CallFunction 9 1001 3 77)) 0 (Some 0)] in
+  drop 6 (outs_after h) = [[(2, CallFunctionReply 9 CRInvalidService, None)]] /\
+  conns (state_after h) !! 1 = None /\ svcs (state_after h) !! (100, 200) = None /\ calls (state_after h) !! 0 = None.
+Proof. exact dead_callee_call_run. Qed.
+
+(* the service is destroyed (its owner removed) in the step that processes the queued abort: the
+   abort comes first, the caller gets Aborted and nothing else *)
+Example C02_dead_callee_abort_run :
+  let h := h_called ++ [inp (DropTask 1) 0 None; inp (Message 2 (AbortFunctionCall 9)) 0 None] in
+  drop 7 (outs_after h) = [[(2, CallFunctionReply 9 CRAborted, None)]] /\
+  conns (state_after h) !! 1 = None /\ svcs (state_after h) !! (100, 200) = None /\ calls (state_after h) !! 0 = None.
+Proof. exact dead_callee_abort_run. Qed.
+
+Example C02_abort_then_destroy_run :
+  drop 7 (outs_after (h_called2 ++ [inp (Message 2 (AbortFunctionCall 9)) 0 None;
+                                    inp (Message 1 (DestroyService 5 1001)) 0 None])) =
+  [ [(1, AbortFunctionCall 0, None); (2, CallFunctionReply 9 CRAborted, None)];
+    [(1, DestroyServiceReply 5 R3Ok, None); (3, CallFunctionReply 9 CRInvalidService, None)] ].
+Proof. exact abort_then_destroy_run. Qed.
+
+Example C02_caller_gone_then_destroy_run :
+  drop 7 (outs_after (h_called2 ++ [inp (ConnectionShutdown 2) 0 None;
+                                    inp (Message 1 (DestroyService 5 1001)) 0 None])) =
+  [ [(1, AbortFunctionCall 0, None)];
+    [(1, DestroyServiceReply 5 R3Ok, None); (3, CallFunctionReply 9 CRInvalidService, None)] ].
+Proof. exact caller_gone_then_destroy_run. Qed.
